@@ -895,10 +895,21 @@ class C21(core.Check):
                 run.run()
             except Violation as v:
                 out.violate(v.clause, v.detail, run.opi)
+            except SystemError as e:
+                # CPython found an error indicator left behind by a finalizer / tp_clear (e.g. a memoryview
+                # that was cleared while a from_buffer object still exported it)
+                chain = '%r <- %r' % (e, e.__cause__ or e.__context__)
+                out.violate('C21.5' if 'export' in chain else 'C21.6',
+                            'the interpreter reported an internal error during the history: %s' % chain, run.opi)
             finally:
-                del run.slots[:]
-                run.info.clear()
-                gc.collect()
+                for attempt in range(3):
+                    try:
+                        del run.slots[:]
+                        run.info.clear()
+                        gc.collect()
+                        break
+                    except SystemError:
+                        continue
         nraise = sum(1 for op in case['ops'] if op[0] in ('gc',) and op[2] == 'raises')
         if unr.count:
             out.fault('destructor_or_free_raised_unraisable', unr.count)
